@@ -13,6 +13,8 @@ import Nsl.Model.CoreSem
 import Nsl.Model.Names
 import Nsl.Model.Opt
 import Nsl.Model.Link
+import Nsl.Model.Wasm
+import Nsl.Model.WasmEval
 import Nsl.Gen.Grammar
 /-!
 # Line-protocol driver: one request per line on stdin, one answer per line on stdout.
@@ -129,6 +131,36 @@ def doLink (line : String) : String :=
         | .missing n => "missing " ++ n | .fuel => "fuel")
   | _ => "error syntax"
 
+/-! ### C06 / C07 -/
+
+def f32ops : Wasm.F32Ops Float32 :=
+  ⟨fun b => Float32.ofBits b.toUInt32, (· + ·), (· - ·), (· * ·), (· / ·), (· == ·), (· < ·), (· > ·)⟩
+
+def doWasmDec (h : String) : String :=
+  let bs := hexToBytes h
+  match Wasm.decModule bs with
+  | none => "undecodable"
+  | some m =>
+    let re := if Wasm.Py.encModule m == bs then "canonical" else "noncanonical"
+    (if Wasm.validModule m then "valid " else "invalid ") ++ re ++
+      s!" types={m.types.length} funcs={m.funcs.length} exports={m.exports.length} codes={m.codes.length}"
+
+def decWArg (t : String) : Option (Wasm.WVal Float32) :=
+  match t.splitOn ":" with
+  | ["i", v] => v.toInt?.map (fun x => Wasm.WVal.i32 (Wasm.wrap x))
+  | ["f", b] => b.toNat?.map (fun x => Wasm.WVal.f32 (Float32.ofBits x.toUInt32))
+  | _ => none
+
+def doWasmEval (h : String) (idx : String) (args : List String) : String :=
+  match Wasm.decModule (hexToBytes h), idx.toNat?, args.mapM decWArg with
+  | some m, some i, some as =>
+    match Wasm.evalFunc f32ops m i as with
+    | none => "trap"
+    | some [] => "void"
+    | some (.i32 v :: _) => s!"i {Wasm.toS v}"
+    | some (.f32 x :: _) => s!"f {x.toBits.toNat}"
+  | _, _, _ => "error"
+
 def handle (st : DState) (line : String) : DState × String :=
   let toks := (line.splitOn " ").filter (· != "")
   match toks with
@@ -173,6 +205,13 @@ def handle (st : DState) (line : String) : DState × String :=
   | "static" :: _ => (st, Static.run (restOfLine line 1))
   | "names" :: _ => (st, Names.run (restOfLine line 1))
   | "link" :: _ => (st, doLink (restOfLine line 1))
+  | ["wasmdec", h] => (st, doWasmDec h)
+  | "wasmeval" :: h :: idx :: args => (st, doWasmEval h idx args)
+  | ["wasmgen"] => (st, match st.ir with
+      | some p => (match Wasm.genWasm p.funcs with
+          | .ok m => "ok " ++ Leb.hex (Wasm.Py.encModule m) ++ (if Wasm.validModule m then " valid" else " invalid")
+          | .error e => "error " ++ e)
+      | none => "error no-ir")
   | "mod" :: _ =>
     match (Sexp.parse (restOfLine line 1)).bind Codec.decModule with
     | some m => ({ st with mod := some m, prog := some (Lower.lowerModule m) }, "ok")
